@@ -64,15 +64,16 @@ def P(pid, **kw):
 P('C01', theorems=['Tcs.C01_stored_eq_accepted', 'Tcs.C01_no_shared_parent', 'Tcs.C01_chain_walk', 'Tcs.C01_chain_walk_sql', 'Tcs.C01_chain_walk_mem'],
   owned={'av.kind', 'av.id', 'av.latest', 'gcv.kind', 'gcv.ids', 'gcv.payload', 'dump.own.latest', 'dump.own.versions', 'dump.own.children', 'dump.other.latest', 'dump.other.versions', 'dump.other.children'},
   oracles=[O.o_c01, relabel(O.o_c03, 'C01: no two versions share a parent and every accepted version stays on the chain, also when requests overlap')],
-  plan={'quick': [hist('default', 260, LIBHTTP), sched(60, mix='av', corpus='0')], 'thorough': [hist('default', 4000, LIBHTTP), hist('long', 600, LIBHTTP), sched(1500, mix='av', corpus='0')]})
-P('C02', theorems=['Tcs.C02_spec', 'Tcs.C02_atomic_compare_append', 'Tcs.C02_new_id_never_issued'],
+  plan={'quick': [hist('default', 260, LIBHTTP), sched(60, mix='av', corpus='0'), sched(24, mix='av', corpus='0', probe='1')], 'thorough': [hist('default', 4000, LIBHTTP), hist('long', 600, LIBHTTP), sched(1500, mix='av', corpus='0'), sched(200, mix='av', corpus='0', probe='1')]})
+P('C02', needs_binary=True, theorems=['Tcs.C02_spec', 'Tcs.C02_atomic_compare_append', 'Tcs.C02_new_id_never_issued'],
   owned={'av.kind', 'av.id', 'av.latest', 'dump.own.latest', 'dump.own.versions', 'dump.own.children', 'dump.own.since', 'http.status.av', 'http.headers.av'},
-  oracles=[O.o_c02, relabel(O.o_c03, 'C02: an AddVersion is accepted exactly when its parent is the latest version at that moment, also when requests overlap')],
-  plan={'quick': [hist('default', 220, LIBHTTP), sched(60, mix='av', corpus='0')], 'thorough': [hist('default', 4000, LIBHTTP), sched(1500, mix='av', corpus='0')]})
-P('C07', theorems=['Tcs.C07_immutable', 'Tcs.C07_prefix', 'Tcs.C07_immutable_sql', 'Tcs.C07_immutable_mem'],
+  oracles=[O.o_c02, O.o_c02_bin, relabel(O.o_c03, 'C02: an AddVersion is accepted exactly when its parent is the latest version at that moment, also when requests overlap')],
+  plan={'quick': [hist('default', 220, LIBHTTP), sched(60, mix='av', corpus='0'), {'scen': 'py:c17', 'args': {}, 'n': 12, 'shards': 6}], 'thorough': [hist('default', 4000, LIBHTTP), sched(1500, mix='av', corpus='0'), {'scen': 'py:c17', 'args': {}, 'n': 60, 'shards': 12}]})
+P('C07', needs_binary=True, theorems=['Tcs.C07_immutable', 'Tcs.C07_prefix', 'Tcs.C07_immutable_sql', 'Tcs.C07_immutable_mem'],
   owned={'gcv.kind', 'gcv.ids', 'gcv.payload'},
-  oracles=[O.o_c07, relabel(O.o_c03, 'C07: a version, once accepted, is returned unchanged by every later GetChildVersion of its parent, also when requests overlap')],
-  plan={'quick': [hist('c07', 220, LIBHTTP), sched(60, mix='gcvav', corpus='0')], 'thorough': [hist('c07deep', 2500, LIBHTTP), sched(1500, mix='gcvav', corpus='0')]})
+  oracles=[O.o_c07, relabel(O.o_c03, 'C07: a version, once accepted, is returned unchanged by every later GetChildVersion of its parent, also when requests overlap'), relabel(O.o_c04_bin, 'C07: a version, once accepted, is returned by every later GetChildVersion of its parent - also after the real executable was killed under load and restarted')],
+  plan={'quick': [hist('c07', 220, LIBHTTP), sched(60, mix='gcvav', corpus='0'), sched(24, mix='av', corpus='0', probe='1'), {'scen': 'py:c17', 'args': {'mode': 'crashbin'}, 'n': 3, 'shards': 3}],
+        'thorough': [hist('c07deep', 2500, LIBHTTP), sched(1500, mix='gcvav', corpus='0'), sched(200, mix='av', corpus='0', probe='1'), {'scen': 'py:c17', 'args': {'mode': 'crashbin'}, 'n': 24, 'shards': 8}]})
 P('C08', theorems=['Tcs.C08_decision', 'Tcs.C08_matches_add_version', 'Tcs.C08_found_is_the_child', 'Tcs.C08_latest_not_found', 'Tcs.C08_on_backend'],
   owned={'gcv.kind', 'av.kind', 'http.status.gcv', 'http.status.av'},
   oracles=[O.o_c08, relabel(O.o_c03, 'C08: GetChildVersion answers not-found / gone exactly as an AddVersion at that moment would be accepted / rejected, also when requests overlap')],
@@ -107,7 +108,7 @@ P('C03', theorems=['Tcs.C03_linearizable_partial', 'Tcs.C03_library_linearizable
   module='Tcs.Props.C03Http',
   owned={'conc.trace', 'conc.resp', 'dump.own', 'dump.other'},
   oracles=[O.o_c03],
-  plan={'quick': [{'scen': 'sched', 'args': {}, 'n': 180}], 'thorough': [{'scen': 'sched', 'args': {}, 'n': 4000}, {'scen': 'sched', 'args': {'probe': '1', 'corpus': '0'}, 'n': 300}]})
+  plan={'quick': [{'scen': 'sched', 'args': {}, 'n': 180}, {'scen': 'sched', 'args': {'probe': '1', 'corpus': '0'}, 'n': 24}], 'thorough': [{'scen': 'sched', 'args': {}, 'n': 4000}, {'scen': 'sched', 'args': {'probe': '1', 'corpus': '0'}, 'n': 300}]})
 P('C04', needs_binary=True, theorems=['Tcs.C04_atomic', 'Tcs.C04_ack_durable', 'Tcs.C04_ack_after_commit', 'Tcs.C04_sql_commit', 'Tcs.C04_ack_or_error', 'Tcs.C04_ack_before_crash', 'Tcs.crash_state_between_txns', 'Tcs.allCommitLast_serve'],
   owned={'av.kind', 'as.kind', 'http.status.av', 'http.status.as', 'http.headers.av', 'snap.accept', 'state.dump'},
   oracles=[O.o_c04, O.o_c04_bin],
@@ -132,13 +133,13 @@ P('C12', theorems=['Tcs.asRunH_countSince', 'Tcs.C12_counter', 'Tcs.C12_only_inp
   oracles=[O.o_c12_urgency, O.o_c12_counter],
   plan={'quick': [{'scen': 'urgency', 'args': {'shards': 8}, 'n': 8, 'shards': 8}, hist('c10', 60, 'mem:lib,sql:lib,sql:http')],
         'thorough': [{'scen': 'urgency', 'args': {'shards': 16, 'dense': '1'}, 'n': 16, 'shards': 16}, hist('c10', 2000, 'mem:lib,sql:lib,sql:http')]})
-P('C14', theorems=['Tcs.C14_decode_respond', 'Tcs.C14_handler_uses_respond', 'Tcs.C14_table', 'Tcs.C14_respond_injective', 'Tcs.serve_factor'],
+P('C14', needs_binary=True, theorems=['Tcs.C14_decode_respond', 'Tcs.C14_handler_uses_respond', 'Tcs.C14_table', 'Tcs.C14_respond_injective', 'Tcs.serve_factor'],
   owned={'http.status.av', 'http.status.gcv', 'http.status.as', 'http.status.gs', 'http.headers.av', 'http.headers.gcv', 'http.headers.as', 'http.headers.gs', 'http.urgency.av', 'http.ctype.gcv', 'http.ctype.gs', 'http.body.gcv', 'http.body.gs'},
   oracles=[O.o_c14_table],
   aligned=[('mem:http', 'mem:lib', 'C14: every HTTP response decodes to exactly the library outcome of the same request on a twin storage'),
            ('sql:http', 'sql:lib', 'C14: every HTTP response decodes to exactly the library outcome of the same request on a twin storage')],
-  plan={'quick': [hist('default', 200, 'mem:http,mem:lib,sql:http,sql:lib'), hist('mid', 8, 'mem:http,mem:lib'), grammar(8, 120, wf='1', lists='none')],
-        'thorough': [hist('default', 3000, 'mem:http,mem:lib,sql:http,sql:lib'), hist('mid', 120, 'mem:http,mem:lib,sql:http,sql:lib'), grammar(64, 300, wf='1', lists='none')]})
+  plan={'quick': [hist('default', 200, 'mem:http,mem:lib,sql:http,sql:lib'), hist('mid', 8, 'mem:http,mem:lib'), grammar(8, 120, wf='1', lists='none'), {'scen': 'py:c17', 'args': {}, 'n': 12, 'shards': 6}],
+        'thorough': [hist('default', 3000, 'mem:http,mem:lib,sql:http,sql:lib'), hist('mid', 120, 'mem:http,mem:lib,sql:http,sql:lib'), grammar(64, 300, wf='1', lists='none'), {'scen': 'py:c17', 'args': {}, 'n': 60, 'shards': 12}]})
 P('C15', theorems=['Tcs.C15_refused', 'Tcs.C15_unknown_route', 'Tcs.C15_refused_no_storage', 'Tcs.C15_limit_inclusive', 'Tcs.C15_oversized', 'Tcs.C15_no_5xx', 'Tcs.serve_factor'],
   owned={'http.status', 'noop.dump', 'calls.txns'},
   oracles=[O.o_c15],
@@ -157,8 +158,8 @@ P('C20', theorems=['Tcs.C20_all_responses', 'Tcs.C20_value', 'Tcs.C20_wrapper_id
 P('C06', theorems=['Tcs.C06_assemble', 'Tcs.C06_chunking_irrelevant', 'Tcs.C06_split_anywhere', 'Tcs.C06_version_roundtrip', 'Tcs.C06_snapshot_roundtrip', 'Tcs.C06_response_body', 'Tcs.assemble_spec'],
   owned={'gcv.payload', 'snap.payload', 'http.body.gcv', 'http.body.gs', 'gcv.ids', 'snap.vid'},
   oracles=[O.o_c06],
-  plan={'quick': [hist('c06', 120, 'mem:http,sql:http,sqlre:lib'), hist('mid', 8, 'mem:http,sql:http'), hist('c06', 24, 'mem:http,sql:http', stall='1')],
-        'thorough': [hist('c06', 1500, 'mem:http,sql:http,sqlre:lib'), hist('mid', 120, 'mem:http,sql:http'), hist('c06', 300, 'mem:http,sql:http', stall='1')]})
+  plan={'quick': [hist('c06', 120, 'mem:http,sql:http,sqlre:lib'), hist('mid', 8, 'mem:http,sql:http'), hist('c06', 24, 'mem:http,sql:http', stall='1'), {'scen': 'overlap', 'args': {}, 'n': 16}],
+        'thorough': [hist('c06', 1500, 'mem:http,sql:http,sqlre:lib'), hist('mid', 120, 'mem:http,sql:http'), hist('c06', 300, 'mem:http,sql:http', stall='1'), {'scen': 'overlap', 'args': {}, 'n': 400}]})
 
 # ---------------------------------------------------------------------------------------------------
 
